@@ -417,6 +417,130 @@ theorem accept_inv (m : Int) (s s' : St) (hi : Inv s) (h : acceptAndNextCall m s
     obtain ⟨a, b⟩ := accept_tail_inv s s' src' hi hs h
     exact ⟨a, b ▸ hs⟩
 
+/-- a match found by the loop of `Sources.match` is a valid index of the source -/
+theorem matchLoop_in_range (src : List (List Nat)) (hne : src ≠ []) (cline : List Nat) (fwd regex : Bool) :
+    ∀ (f : Nat) (p r : Int), matchLoop src cline fwd regex f p = some r → 0 ≤ r ∧ r < src.length := by
+  intro f
+  induction f with
+  | zero => intro p r h; simp [matchLoop] at h
+  | succ f ih =>
+    intro p r h
+    unfold matchLoop at h
+    by_cases hm : moreToSee fwd p src.length = true
+    · simp only [hm, if_true] at h
+      cases hg : getLine src (nextPos fwd p) with
+      | none => simp [hg] at h
+      | some hl =>
+        simp only [hg] at h
+        by_cases hmt : lineMatches regex (utf8 hl) cline = true
+        · simp only [hmt, if_true] at h
+          injection h with h
+          subst h
+          unfold getLine at hg
+          have he : src.isEmpty = false := by
+            cases hs : src with
+            | nil => exact absurd hs hne
+            | cons _ _ => rfl
+          simp only [he, Bool.false_eq_true, if_false] at hg
+          by_cases hr : nextPos fwd p < 0 ∨ nextPos fwd p ≥ (src.length : Int)
+          · simp [hr] at hg
+          · omega
+        · simp only [hmt, Bool.false_eq_true, if_false] at h
+          exact ih _ _ h
+    · simp only [hm, Bool.false_eq_true, if_false] at h
+      cases h
+
+theorem insertMatch_inv (s : St) (ml : List Nat) (mp : Int) (fwd regex : Bool) (hi : Inv s) :
+    Inv (insertMatch s ml mp true fwd regex) ∧ (insertMatch s ml mp true fwd regex).src = s.src := by
+  have base : ∀ t : St, t.lhs = s.lhs → t.src = s.src → t.skip = s.skip → t.undoing = s.undoing → OnEntry t → Inv t :=
+    fun t a b c d e => ⟨c.trans hi.sk, d.trans hi.und, PosZero_congr s t a hi.pz, Faithful_congr s t a b hi.fa, e⟩
+  unfold insertMatch
+  simp only
+  by_cases c0 : (fwd = true ∧ s.hpos ≤ -1)
+  · rw [if_pos c0]
+    exact ⟨base _ rfl rfl rfl rfl (Or.inl rfl), rfl⟩
+  rw [if_neg c0]
+  split
+  · split
+    · unfold restoreLineBuffer
+      simp only
+      split
+      · exact ⟨base _ rfl rfl rfl rfl (Or.inl rfl), rfl⟩
+      · exact ⟨base _ rfl rfl rfl rfl (Or.inl rfl), rfl⟩
+    · exact ⟨hi, rfl⟩
+  · rename_i p hm
+    have hne : s.src ≠ [] := by
+      intro e
+      rw [e] at hm
+      -- an empty source: the loop is not entered going backward from 0, and going forward the position
+      -- is on the typed line (excluded above)
+      rcases hpos_range s hi with o | ⟨o1, o2⟩
+      · cases fwd
+        · simp [o, matchLoop, moreToSee] at hm
+        · exact c0 ⟨rfl, by omega⟩
+      · rw [e] at o2; simp at o2; omega
+    obtain ⟨r0, r1⟩ := matchLoop_in_range s.src hne _ fwd regex _ _ p hm
+    have oe : ∀ (c : Cur), OnEntry ({ s with hpos := (s.src.length : Int) - p, line := s.src.getD p.toNat [], cur := c } : St) := by
+      intro c
+      right
+      refine ⟨by show 1 ≤ (s.src.length : Int) - p; omega, by show (s.src.length : Int) - p ≤ s.src.length; omega, ?_⟩
+      show s.src.getD p.toNat [] = s.src.getD ((s.src.length : Int) - ((s.src.length : Int) - p)).toNat []
+      have : (s.src.length : Int) - ((s.src.length : Int) - p) = p := by omega
+      rw [this]
+    split
+    · exact ⟨base _ rfl rfl rfl rfl (oe _), rfl⟩
+    · exact ⟨base _ rfl rfl rfl rfl (oe _), rfl⟩
+
+theorem searchLine_inv (s t : St) (ml : List Nat) (mp : Int) (hi : Inv s) (h : searchLine s = .ok (t, ml, mp)) :
+    Inv t ∧ t.src = s.src := by
+  unfold searchLine at h
+  simp only [bind, Except.bind, pure, Except.pure] at h
+  have tail : ∀ u : St, Inv u → u.src = s.src →
+      (match (getLH u (-1)).items.getLast? with
+        | some w => (Except.ok (u, w.line, (curSet w.line ⟨0, -1⟩ w.pos).pos) : G (St × List Nat × Int))
+        | none => Except.ok (u, [], 0)) = .ok (t, ml, mp) → Inv t ∧ t.src = s.src := by
+    intro u iu eu hh
+    split at hh
+    · have e := Except.ok.inj hh
+      have : u = t := congrArg Prod.fst e
+      subst this; exact ⟨iu, eu⟩
+    · have e := Except.ok.inj hh
+      have : u = t := congrArg Prod.fst e
+      subst this; exact ⟨iu, eu⟩
+  by_cases c : s.hpos = -1
+  · rw [if_pos c] at h
+    cases hsv : save { s with skip := false } with
+    | error e => rw [hsv] at h; cases h
+    | ok t1 =>
+      rw [hsv] at h
+      simp only at h
+      have hi0 : Inv { s with skip := false } := Inv_congr s _ rfl rfl rfl rfl rfl hi.und hi
+      obtain ⟨i1, e1, _, _⟩ := save_inv _ t1 hi0 hsv
+      have i2 : Inv { t1 with skip := s.skip } := Inv_congr t1 _ rfl rfl rfl rfl hi.sk i1.und i1
+      exact tail _ i2 e1 h
+  · rw [if_neg c] at h
+    exact tail s hi rfl h
+
+theorem search_inv (s s' : St) (fwd regex : Bool) (hi : Inv s) (h : searchCmd s fwd regex = .ok s') :
+    Inv s' ∧ s'.src = s.src := by
+  unfold searchCmd at h
+  simp only [bind, Except.bind, pure, Except.pure] at h
+  cases h1 : save s with
+  | error e => rw [h1] at h; cases h
+  | ok s1 =>
+    rw [h1] at h; simp only at h
+    obtain ⟨i1, e1, _, _⟩ := save_inv s s1 hi h1
+    cases h2 : searchLine s1 with
+    | error e => rw [h2] at h; cases h
+    | ok v =>
+      obtain ⟨s2, ml, mp⟩ := v
+      rw [h2] at h; simp only at h
+      obtain ⟨i2, e2⟩ := searchLine_inv s1 s2 ml mp i1 h2
+      have e := Except.ok.inj h
+      subst e
+      obtain ⟨i3, e3⟩ := insertMatch_inv s2 ml mp fwd regex i2
+      exact ⟨i3, by rw [e3, e2, e1]⟩
+
 theorem step_inv (m : Int) (s s' : St) (op : HOp) (hi : Inv s) (h : stepUnedited m s op = .ok s') :
     Inv s' ∧ ∃ more, s'.src = s.src ++ more := by
   cases op with
@@ -476,6 +600,15 @@ theorem step_inv (m : Int) (s s' : St) (op : HOp) (hi : Inv s) (h : stepUnedited
       rcases e1 with e1 | e1
       · exact ⟨i3, [], by rw [e3, e1]; simp⟩
       · exact ⟨i3, [s.line], by rw [e3, e1]⟩
+  | search fwd regex =>
+    simp only [stepUnedited, bind, Except.bind] at h
+    cases h1 : searchCmd s fwd regex with
+    | error e => rw [h1] at h; cases h
+    | ok s1 =>
+      rw [h1] at h; simp only at h
+      obtain ⟨i1, e1⟩ := search_inv s s1 fwd regex hi h1
+      obtain ⟨i3, e3, _, _⟩ := save_inv s1 s' i1 h
+      exact ⟨i3, [], by rw [e3, e1]; simp⟩
 
 theorem run_inv (m : Int) : ∀ (ops : List HOp) (s s' : St), Inv s → runUnedited m s ops = .ok s' →
     Inv s' ∧ ∃ more, s'.src = s.src ++ more
